@@ -410,6 +410,7 @@ def explore_instance(ctx, fam, inst, tier, seed, known_active):
     mod = ctx.mod(fam.pkg)
     ex = Exec(mod, timeout_ms=20000 if tier == 'quick' else 60000, seed=seed)
     ex.exact_consts = True
+    ex.sample_rng = random.Random(seed * 31 + 7)
     ex.fork_minmax = getattr(fam, 'fork_minmax', False)
     ex.sqrt_mode = getattr(fam, 'sqrt_mode', 'exact')
     res = dict(family=fam.name, inst=inst, paths=0, obligations=0, discharged=0, inconclusive=[], nonrepro=0,
@@ -486,6 +487,11 @@ def explore_instance(ctx, fam, inst, tier, seed, known_active):
         res['error'] = 'unsupported: %s' % e
     except Exception as e:
         res['error'] = 'exception: %s\n%s' % (e, traceback.format_exc()[-1500:])
+    from .interp import cross_check
+    try:
+        res['cross'] = cross_check(ex.samples, ctx.workdir)
+    except Exception as e:
+        res['cross'] = (0, 0, [])
     res['queries'] = ex.stats.queries
     res['solver_time'] = round(ex.stats.solver_time, 3)
     res['unknown_queries'] = ex.stats.unknown
